@@ -280,6 +280,9 @@ func runCase(c Case, st *ev.Stats) (err error) {
 		return fmt.Errorf("WhenQueue(%d) closed although the machine is idle at queue tick %d", decoyTick, qt)
 	}
 	for _, nr := range run.Runner.NestedResults {
+		if nr.Step.Op == "canadd" || nr.Step.Op == "canremove" {
+			continue // checks are prepended: the virtual Queued value, not a tick
+		}
 		if nr.Res >= am.Queued && qt < uint64(nr.Res) {
 			return fmt.Errorf("handler %s issued %s, got tick %d, machine idle at tick %d", nr.Name, nr.Step, nr.Res, qt)
 		}
